@@ -415,6 +415,6 @@ mod tests {
 }
 
 #[cfg(kani)]
-mod verif_kani {
+pub(crate) mod verif_kani {
     include!(concat!(env!("IPA_VERIF_DIR"), "/kani/oprf_distributions.rs"));
 }
